@@ -29,7 +29,7 @@ import (
 type conn struct {
 	c       net.Conn
 	proto   ProtocolInfo
-	open    bool
+	closed  bool
 	options map[string]interface{}
 	maxrx   int
 	sync.Mutex
@@ -93,11 +93,11 @@ func (p *conn) Send(msg *Message) error {
 func (p *conn) Close() error {
 	p.Lock()
 	defer p.Unlock()
-	if p.open {
-		p.open = false
-		return p.c.Close()
+	if p.closed {
+		return nil
 	}
-	return nil
+	p.closed = true
+	return p.c.Close()
 }
 
 func (p *conn) GetOption(n string) (interface{}, error) {
@@ -191,9 +191,6 @@ func (p *conn) handshake() error {
 		_ = p.c.Close()
 		return mangos.ErrBadProto
 	}
-	p.Lock()
-	p.open = true
-	p.Unlock()
 	return nil
 }
 
